@@ -405,7 +405,7 @@ pub fn run(tier: Tier) -> i32 {
         if thorough {
             phases.push(Explore { max_dev: 2, taps: true, cap_runs: 6000 });
         } else {
-            phases.push(Explore { max_dev: 1, taps: true, cap_runs: 400 });
+            phases.push(Explore { max_dev: 2, taps: true, cap_runs: 1500 });
         }
         let mut outcomes = std::collections::HashSet::new();
         for (pi, ph) in phases.iter().enumerate() {
